@@ -66,8 +66,15 @@ def make_worker_case(index, rng, tier):
             i = rng.randrange(len(clients) - 1)
             clients[i + 1]["t"] = clients[i]["t"]
             clients[i + 1]["addr"] = 1 - clients[i]["addr"]
+    abort = None
+    if rng.randrange(8) == 0:
+        # the other side of the contract: a request hangs (in interruptible Python) for longer than the timeout and the master's SIGABRT
+        # arrives: the worker ends - it does not shrug the signal off and carry on as a healthy worker that nobody replaces
+        sat, term_at, binds = None, None, 1
+        clients = [{"t": 0.2, "dur": float(3 * timeout)}]
+        abort = round(0.2 + timeout + rng.uniform(0.1, 0.9), 2)
     return {"family": "worker", "kind": kind, "timeout": timeout, "clients": clients, "threads": rng.randrange(1, 3), "saturate": sat, "term_at": term_at,
-            "binds": binds,
+            "binds": binds, "abort_at": abort,
             "keepalive": rng.choice([0, 2]), "buggify": {"pyticks": rng.randrange(3) == 0, "short_recv": rng.randrange(4) == 0, "spurious_select": rng.randrange(4) == 0}}
 
 
@@ -109,6 +116,15 @@ def run_worker(case, choices):
     t_end = max([c["t"] + c["dur"] for c in case["clients"]] + [0.0]) + 3.0 * T + 2.0 + (sat["keepalive"] if sat else 0)
     ctx = lambda: "family=worker kind=%s timeout=%s (worker wait bound %s) threads=%d clients=%r t=%.2f" % (
         kind, T, T / 2.0, case["threads"], case["clients"], sim.now)
+    abort_at = case.get("abort_at")
+    if abort_at is not None:
+        t_end = abort_at + 3.0
+
+        def abort():
+            if p.state == "running":
+                sim.fault("worker_sigabrt_while_request_hangs")
+                sim.kill(p.pid, int(signal.SIGABRT))
+        sim.after(abort_at, abort)
     term_at = case.get("term_at")
     if term_at is not None:
         def fire():
@@ -120,6 +136,21 @@ def run_worker(case, choices):
         sim.run(until=lambda: sim.now >= t_end or p.state != "running")
         if sim.crash:
             raise W.HarnessError(sim.crash)
+        if abort_at is not None:
+            handled = [t_ for t_, sg in p.sig_received if sg == int(signal.SIGABRT)]
+            late = [b for b in beats if handled and b > handled[0] + 0.3]
+            if handled and p.state == "running" and late:
+                res.violate("C11:worker:%s:carried-on-after-abort" % kind,
+                            "the %s worker was sent SIGABRT at t=%.2f while a request had been hanging for longer than timeout=%s; %.1f s later it "
+                            "is still running and heart-beating (last at t=%.2f): the master sees a healthy worker again and never replaces it; %s"
+                            % (kind, handled[0], T, sim.now - handled[0], late[-1], ctx()))
+            res.nontrivial = True
+            res.sim_s = sim.now
+            res.faults.update(sim.faults)
+            res.probes.update(sim.probes)
+            res.states.add(h64("worker-abort", kind, T, p.state))
+            res.from_log(sim.log)
+            return res
         if p.state != "running" and (term_at is None or sim.now < term_at):
             res.violate("C11:worker:%s:exited" % kind, "the worker exited (%r) by itself; boot_error=%r; %s" % (p.status, w.boot_error, ctx()))
         gaps = [b - a for a, b in zip(beats, beats[1:])]
